@@ -300,6 +300,14 @@ func tileParent(t Tile, k int, n int64) Tile {
 func (r *tileHashReader) ReadHashes(indexes []int64) ([]Hash, error) {
 	h := r.tr.Height()
 
+	if r.tree.N == 0 {
+		// The empty tree has no hashes and no tiles to authenticate.
+		if len(indexes) > 0 {
+			return nil, fmt.Errorf("indexes not in tree")
+		}
+		return []Hash{}, nil
+	}
+
 	tileOrder := make(map[Tile]int) // tileOrder[tileKey(tiles[i])] = i
 	var tiles []Tile
 
